@@ -143,7 +143,7 @@ fn yaml_quoted(text: &str) -> String {
             '"' => quoted.push_str("\\\""),
             '\\' => quoted.push_str("\\\\"),
             // not allowed verbatim in YAML (or read as a line break)
-            ch if ch.is_control() || matches!(ch, '\u{2028}' | '\u{2029}' | '\u{feff}') => {
+            ch if ch.is_control() || matches!(ch, '\u{2028}' | '\u{2029}' | '\u{feff}' | '\u{fffe}' | '\u{ffff}') => {
                 quoted.push_str(&format!("\\u{:04x}", ch as u32))
             }
             ch => quoted.push(ch),
